@@ -61,8 +61,8 @@ def b1(led, rid, ctx):
             ok3 = any(x is p for x in pushed.calls())
             # the push happens for every element: guarded by nothing but the Some edge of the iteration
             extra = [show(g_.atom)[:40] for g_ in guards_of(f, pushes[0].bb)
-                     if not (g_.kind == "variant" and g_.val == "Some") and not g_.neg
-                     and not any(x.k == "call" and x.a.name == "next" for x in g_.atom.walk())]
+                     if not (g_.kind == "variant" and peel(g_.atom, calls=None).k == "call"
+                             and peel(g_.atom, calls=None).a.name == "next")]
             led.check(ok2 and ok3 and not extra, rid, "own-value-of-own-domain", p.span,
                       "[variable != solution.get_integer_value(variable)] pushed for every domain",
                       "the loop does not push, for every domain, the predicate comparing the domain with its own value "
